@@ -36,6 +36,26 @@ type Verdict struct {
 	NonTrivial bool     `json:"nontrivial,omitempty"`
 	Excluded   string   `json:"excluded,omitempty"` // reason the case was not judged
 	Crash      bool     `json:"crash,omitempty"`    // Sig comes from a panic / hang / process death
+	// Tolerated: deviations of a listed finding met on the way while the rest of the case was still
+	// judged (exclusion by construction). Each is honoured only while the ledger lists its signature;
+	// otherwise it is the violation of the case.
+	Tolerated []Deviation `json:"tolerated,omitempty"`
+}
+
+type Deviation struct {
+	Sig string `json:"sig"`
+	Msg string `json:"msg"`
+}
+
+// Tolerate records a deviation that belongs to a listed finding (checked against the ledger by the worker).
+func (v *Verdict) Tolerate(sig, format string, args ...interface{}) {
+	sig = cleanSig(sig)
+	for _, d := range v.Tolerated {
+		if d.Sig == sig {
+			return
+		}
+	}
+	v.Tolerated = append(v.Tolerated, Deviation{Sig: sig, Msg: fmt.Sprintf(format, args...)})
 }
 
 func OK(nt bool, labels ...string) Verdict { return Verdict{NonTrivial: nt, Labels: labels} }
